@@ -257,6 +257,10 @@ func jobsFor(prop, tier string) []*Job {
 		add(&Job{Name: fmt.Sprintf("O2-metrics/k=%d", k), Pkg: "memmetrics", Harness: "VerifC18Metrics", Grid: 1e9, Params: p("k", k, "t0span", 40), TimeoutS: 120, MergeBlind: true,
 			Merge: map[string]bool{"(*github.com/vulcand/oxy/v2/memmetrics.RollingCounter).cleanup": true, "(*github.com/vulcand/oxy/v2/memmetrics.RollingCounter).incBucketValue": true},
 			Bounds: fmt.Sprintf("%d Record calls with codes chosen symbolically from {200,404,500,502,504} at one instant (symbolic within a window covering every bucket residue), then the ratios and Reset", k)})
+		for part := 0; part < 16; part++ {
+			add(&Job{Name: fmt.Sprintf("O3-decision-and-effects/k=4,depth=1,part=%d", part), Pkg: "cbreaker", Harness: "VerifC05History", Params: p("k", 4, "depth", 1, "part", part, "parts", 16),
+				Bounds: "history harness of C05 with 4 sequential requests (trip, recovery, re-trip from recovery, second recovery): same clauses"})
+		}
 		for part := 0; part < 4; part++ {
 			add(&Job{Name: fmt.Sprintf("O3-decision-and-effects/k=2,depth=2,part=%d", part), Pkg: "cbreaker", Harness: "VerifC05History", Params: p("k", 2, "depth", 2, "part", part, "parts", 4),
 				Bounds: "history harness of C05: evaluated exactly when the check period is over, trips iff the evaluated condition is true, trip resets the metrics once, on-tripped / on-standby effects run once per transition"})
